@@ -89,6 +89,9 @@ def run_translator():
     for f in sorted(os.listdir(out_dir)):
         if f.endswith(".v"):
             write_if_changed(os.path.join(COQ, "Gen", f), open(os.path.join(out_dir, f)).read())
+    reg = os.path.join(out_dir, "catalog_registry.go.txt")
+    if os.path.exists(reg):
+        write_if_changed(os.path.join(HARNESS, "cmd", "hcdrv", "catalog_registry_gen.go"), open(reg).read())
     return complaints
 
 
